@@ -19,6 +19,19 @@ CHECKS = {
               "reject with ValueError."),
         note="Trusted: hashlib (OpenSSL) and ref/hashes.py self-tests (RFC/NIST vectors); MD5/SHA-1/SHA-2/BLAKE2 have hashlib as the only oracle. Messages up to 2 MiB; bit-length counter carries beyond 2^32 bits are not reached.",
         ref="DESIGN.md §4 C03"),
+    "C08": dict(
+        technique="runtime monitor: reference-model oracle (independent key-file parser/encoder + strict DER reader) over the full export matrix, wrong-passphrase and equality truth-table checks",
+        text=("Every cell of the export matrix - RSA {PEM, DER, OpenSSH} x pkcs {1, 8} x {clear, legacy PEM, all 84 PBES2 strings incl. scrypt and AES-GCM} x prot_params, DSA "
+              "{PEM, DER, OpenSSH} x pkcs8 x protection, ECC on nine curves {PEM, DER, SEC1, raw, OpenSSH} x compress x use_pkcs8 x protection, bytes/str/latin-1 passphrases - "
+              "is judged four ways: the library's re-import has the same components and == the original; the independent parser ref/keyfiles.py (PEM, DEK-Info, PKCS#8, PBES2/"
+              "PBKDF2/scrypt with 3DES/AES-CBC/AES-GCM, PKCS#1, RFC 5915, SPKI, SEC1, raw, OpenSSH) decodes the blob to the same numbers; every DER layer (outer, decrypted "
+              "PrivateKeyInfo, privateKey, subjectPublicKey) is strict DER and re-encodes canonically to identical bytes; a one-character-different passphrase is refused with "
+              "ValueError.  Keys include model-generated RSA moduli of 1024..1032 bits with e in {3,17,65537} and components with leading zero / high-bit bytes, DSA fixtures, "
+              "EC keys selected for leading-zero coordinates and boundary seeds.  Key files written by the model's own encoders (incl. unencrypted openssh-key-v1) must import to "
+              "the same numbers; the equality truth table (re-import, other key, private vs public, one component changed, same modulus other d, cross type/curve, key vs "
+              "int/None/str/bytes/object) must hold and never raise."),
+        note="Trusted: ref/keyfiles.py and ref/der.py (self-tested against 38 OpenSSL/OpenSSH-generated files), ref.ciphers/ref.modes, hashlib PBKDF2/scrypt. Documented export refusals are counted, not judged. Keys <= 2048 bits.",
+        ref="DESIGN.md §4 C08"),
     "C11": dict(
         technique="runtime monitor: state recovery from outputs (ECB-decrypting CTR keystream to recover counter blocks; ChaCha20 keystream vs model at the history-implied position; captured HPKE nonces) over limit-crossing call histories",
         text=("CTR keystream (encrypt of zeros) of every block cipher is ECB-decrypted block by block to recover the counter block that produced it: prefix/suffix "
